@@ -16,6 +16,7 @@
 #include <pistache/peer.h>
 #include <pistache/transport.h>
 
+#include <algorithm>
 #include <cstring>
 #include <ctime>
 #include <iomanip>
@@ -476,20 +477,23 @@ namespace Pistache::Http
             message->body_.reserve(size);
             StreamCursor::Token chunkData(cursor);
             const ssize_t available = cursor.remaining();
+            const ssize_t missing   = size - alreadyAppendedChunkBytes;
 
-            if (available + alreadyAppendedChunkBytes < size + 2)
+            if (available < missing + 2)
             {
-                cursor.advance(available);
-                message->body_.append(chunkData.rawText(), available);
-                alreadyAppendedChunkBytes += available;
+                // take the chunk data that is there, but leave a partial trailing EOL
+                const ssize_t data = std::min(available, missing);
+                cursor.advance(data);
+                message->body_.append(chunkData.rawText(), data);
+                alreadyAppendedChunkBytes += data;
                 return Incomplete;
             }
-            cursor.advance(size - alreadyAppendedChunkBytes);
+            cursor.advance(missing);
 
             // trailing EOL
             cursor.advance(2);
 
-            message->body_.append(chunkData.rawText(), size - alreadyAppendedChunkBytes);
+            message->body_.append(chunkData.rawText(), missing);
 
             return Complete;
         }
